@@ -71,6 +71,7 @@ type Stats struct {
 	BytesToSUT, BytesToPeer            int64
 	Deliveries, Fragments              int
 	Resets, Closes                     int
+	BlockedWrites                      int
 }
 
 var cur atomic.Pointer[Net]
@@ -104,6 +105,8 @@ type Link struct {
 	peerGone  bool   // peer was told about the close
 	reset     bool   // RST: both directions dead
 	Stalled   bool   // no delivery while set (fault)
+	NoRead    bool   // the peer has stopped reading: nothing is delivered to it, and once SndBuf bytes wait the SUT's writes block
+	SndBuf    int    // bytes the SUT can write ahead of a peer that does not read (0 = unlimited)
 	User      interface{}
 	ioSync    int   // address used for race-detector release/acquire
 	written   int64 // bytes the peer wrote towards the SUT
@@ -117,6 +120,7 @@ type Conn struct {
 	eof      bool
 	closed   bool
 	rq       simrt.WaitQ
+	wq       simrt.WaitQ // writers blocked on a full send buffer
 	rdl      time.Time
 	rdlTimer *time.Timer
 	blocked  bool
@@ -340,14 +344,23 @@ func (c *Conn) Read(b []byte) (int, error) {
 //go:norace
 func (c *Conn) Write(b []byte) (int, error) {
 	simrt.Touch()
-	if c.closed {
-		return 0, &net.OpError{Op: "write", Net: "tcp", Err: errClosed}
-	}
-	if c.l.reset {
-		return 0, &net.OpError{Op: "write", Net: "tcp", Err: os.NewSyscallError("write", syscall.ECONNRESET)}
-	}
-	if c.l.peerGone {
-		return 0, &net.OpError{Op: "write", Net: "tcp", Err: os.NewSyscallError("write", syscall.EPIPE)}
+	for {
+		if c.closed {
+			return 0, &net.OpError{Op: "write", Net: "tcp", Err: errClosed}
+		}
+		if c.l.reset {
+			return 0, &net.OpError{Op: "write", Net: "tcp", Err: os.NewSyscallError("write", syscall.ECONNRESET)}
+		}
+		if c.l.peerGone {
+			return 0, &net.OpError{Op: "write", Net: "tcp", Err: os.NewSyscallError("write", syscall.EPIPE)}
+		}
+		if !(c.l.NoRead && c.l.SndBuf > 0 && len(c.l.toPeer) >= c.l.SndBuf) || !simrt.Active() || simrt.Exiting() {
+			break
+		}
+		// the peer's receive window and the local send buffer are full: the write blocks until the
+		// peer reads again, the connection is reset, or this side closes it
+		c.l.net.Stats.BlockedWrites++
+		simrt.Block(&c.wq, c, "net.Write")
 	}
 	simrt.RaceReleaseMerge(unsafe.Pointer(&c.l.ioSync))
 	c.l.toPeer = append(c.l.toPeer, b...)
@@ -364,6 +377,7 @@ func (c *Conn) Close() error {
 	c.l.sutClosed = true
 	c.l.net.Stats.Closes++
 	c.rq.WakeAll()
+	c.wq.WakeAll()
 	return nil
 }
 
@@ -568,6 +582,17 @@ func (l *Link) PeerReset() {
 	l.toSUT, l.toPeer = nil, nil
 	l.net.Stats.Resets++
 	l.Conn.rq.WakeAll()
+	l.Conn.wq.WakeAll()
+}
+
+// SetNoRead makes the peer stop (or resume) reading what the SUT writes.
+//
+//go:norace
+func (l *Link) SetNoRead(on bool, sndbuf int) {
+	l.NoRead, l.SndBuf = on, sndbuf
+	if !on {
+		l.Conn.wq.WakeAll()
+	}
 }
 
 //go:norace
@@ -584,7 +609,7 @@ func (l *Link) PendingToSUT() int {
 
 //go:norace
 func (l *Link) PendingToPeer() int {
-	if l.reset {
+	if l.reset || l.NoRead {
 		return 0
 	}
 	n := len(l.toPeer)
@@ -629,7 +654,7 @@ func (l *Link) DeliverToSUT(max int) int {
 //
 //go:norace
 func (l *Link) DeliverToPeer() {
-	if l.reset {
+	if l.reset || l.NoRead {
 		return
 	}
 	if len(l.toPeer) > 0 {
